@@ -159,6 +159,30 @@ def decTuples (P : Params) : List J → Option (List Transfer)
     | some t, some ts => some (t :: ts)
     | _, _ => none
 
+/-- the `transfers` field: absent, `null` (nil slice) or an array of tuples -/
+def decTransfersField (P : Params) : Option J → Option (List Transfer)
+  | none => some []
+  | some .null => some []
+  | some (.arr items) => decTuples P items
+  | some _ => none
+
+/-- the `conversion` field: absent (zero value) or a ticker token -/
+def decConversionField (P : Params) : Option J → Option Ticker
+  | none => some 0
+  | some cj => decTickerRaw P cj
+
+def optLen : Option J → Nat
+  | none => 0
+  | some j => J.len j
+
+/-- the length `Transaction.UnmarshalJSON` expects the (compacted) object to have -/
+def expectedTxLen (P : Params) (fs : List (String × String × J)) (ij : J) (t : Tx) : Nat :=
+  (match lookupField fs "metadata" with
+   | none => 0
+   | some mj => 12 + J.len mj) +
+  (if t.isConversion P then 24 + J.len ij + optLen (lookupField fs "conversion")
+   else 23 + J.len ij + optLen (lookupField fs "transfers"))
+
 /-- `Transaction.UnmarshalJSON` -/
 def decTx (P : Params) (j : J) : Option Tx :=
   match j with
@@ -169,27 +193,14 @@ def decTx (P : Params) (j : J) : Option Tx :=
       match decTyped P ij with
       | none => none
       | some (a, n, ty) =>
-        -- transfers: absent, null (nil slice) or an array of tuples
-        match (match lookupField fs "transfers" with
-               | none => some []
-               | some .null => some []
-               | some (.arr items) => decTuples P items
-               | some _ => none) with
+        match decTransfersField P (lookupField fs "transfers") with
         | none => none
         | some trs =>
-          match (match lookupField fs "conversion" with
-                 | none => some 0
-                 | some cj => decTickerRaw P cj) with
+          match decConversionField P (lookupField fs "conversion") with
           | none => none
           | some conv =>
             let t : Tx := { inAddr := a, inType := ty, inAmount := n, transfers := trs, conversion := conv }
-            let metaLen := match lookupField fs "metadata" with
-              | none => 0
-              | some mj => 12 + J.len mj
-            let body :=
-              if t.isConversion P then 24 + J.len ij + (match lookupField fs "conversion" with | some cj => J.len cj | none => 0)
-              else 23 + J.len ij + (match lookupField fs "transfers" with | some tj => J.len tj | none => 0)
-            if metaLen + body = J.len j then some t else none
+            if expectedTxLen P fs ij t = J.len j then some t else none
   | _ => none
 
 def decTxs (P : Params) : List J → Option (List Tx)
